@@ -3,6 +3,7 @@ package props
 import (
 	"bytes"
 	"encoding/binary"
+	"errors"
 	"fmt"
 	"sync/atomic"
 
@@ -23,7 +24,7 @@ func init() {
 		Plan: func(tier string) Plan {
 			return Plan{Level: "exploration", NCases: pick(tier, 200, 30000), Batch: 4, CaseTimeout: 120,
 				Rule: "one case = a PRNG sequence of 6-20 compaction requests (increasing, repeated, decreasing, 0, above current) interleaved with writes on one engine (every 8th case over 650-950 additional keys, several 300-kv stream batches); after each accepted compaction the monitor raises floor=max(floor, effective revision from the response header), reads the stored compaction record, and issues List / ListByStream at revisions around every past floor and Count at latest, on the compacting node and on a second node over the same store (which adopts the first node's read revision as a follower does). " +
-					"Every 8th case is instead two OVERLAPPING requests: one request (naming the lower or the higher revision) is held at its 1st-3rd read of / write to the compaction record (hook in the storage wrapper), the other runs to completion, then the first continues; requests go to the backend or through the native server's Compact handler; the record must not end below the highest accepted effective revision and reads below it must be refused. " +
+					"Every third sequential case ends with reads below the floor while the compaction record itself cannot be read (injected error on that one key): they must fail, not be served. Every 8th case is instead two OVERLAPPING requests: one request (naming the lower or the higher revision) is held at its 1st-3rd read of / write to the compaction record (hook in the storage wrapper), the other runs to completion, then the first continues; requests go to the backend or through the native server's Compact handler; the record must not end below the highest accepted effective revision and reads below it must be refused. " +
 					"non-trivial = sequence containing >=1 request naming an older revision than an earlier accepted one and >=1 read refused below the floor; distinct by (engine, request vector)",
 				Assumptions: []string{"only compactions that returned without error raise the monitor's floor"},
 				MinConcl:    pick(tier, 150, 25000)}
@@ -58,9 +59,22 @@ func streamAll(n *harness.Node, start, end []byte, rev uint64) (batches []*proto
 func runC08(c *harness.Case) {
 	r := c.Rng
 	kind := c08Engines[c.Index%len(c08Engines)]
-	n, eng, ok := newSeqNode(c, kind, backend.Config{EnableEtcdCompatibility: true})
-	if !ok {
-		return
+	var n *harness.Node
+	var eng *harness.Engine
+	var fw *harness.Wrap // every third case: a storage wrapper in the path, for the unreadable-record probe at the end
+	if c.Index%3 == 2 && !harness.IsMetricsKind(kind) {
+		var err error
+		if eng, err = harness.NewEngine(kind); err != nil {
+			c.Inconclusive("engine: " + err.Error())
+			return
+		}
+		fw = harness.NewWrap(eng.KV)
+		n = harness.NewNode(harness.NodeOpts{KV: fw, Config: backend.Config{EnableEtcdCompatibility: true}})
+	} else {
+		var ok bool
+		if n, eng, ok = newSeqNode(c, kind, backend.Config{EnableEtcdCompatibility: true}); !ok {
+			return
+		}
 	}
 	defer eng.Close()
 	defer n.Retire()
@@ -228,6 +242,34 @@ func runC08(c *harness.Case) {
 		} else if int(cr.Count) != len(m.Snapshot(full, fullEnd, n.Committed())) {
 			c.Violatef("C08 count-differs", wit(), "Count=%d, snapshot has %d", cr.Count, len(m.Snapshot(full, fullEnd, n.Committed())))
 		}
+	}
+	// the compaction record cannot be read for a while (the region holding it is unavailable) although the data can:
+	// a range read below the floor must then fail, one way or another - it must not be served
+	if fw != nil && floor > n.Start+1 && c.R.Verdict == "held" {
+		compactKey := []byte(harness.Prefix + "/compact_key")
+		fw.GetFault = func(key []byte) error {
+			if bytes.Equal(key, compactKey) {
+				return errors.New("injected: region is unavailable")
+			}
+			return nil
+		}
+		R := floor - 1
+		lr, lerr := n.List(full, fullEnd, R, 0)
+		l2, l2err := n.List(full, fullEnd, R, 1)
+		batches, _ := streamAll(n, encS, encE, R)
+		fw.GetFault = nil
+		if lerr == nil {
+			c.Violatef("C08 range-read-below-floor-served record=unreadable", wit(), "while the compaction record could not be read, List at revision %d (floor %d) returned %d kvs", R, floor, len(lr.Kvs))
+		}
+		if l2err == nil {
+			c.Violatef("C08 range-read-below-floor-served record=unreadable limited", wit(), "while the compaction record could not be read, List(limit 1) at revision %d (floor %d) returned %d kvs", R, floor, len(l2.Kvs))
+		}
+		for _, b := range batches {
+			if b.RangeResponse.GetMore() {
+				c.Violatef("C08 stream-below-floor-served-data record=unreadable", wit(), "while the compaction record could not be read, ListByStream at revision %d delivered data although the floor is %d", R, floor)
+			}
+		}
+		c.Stat("reads_below_the_floor_with_the_record_unreadable", 3)
 	}
 	c.Stat("compaction_requests", int64(nReq))
 	c.AddSet("engines", kind)
